@@ -6,6 +6,7 @@ package sim
 import (
 	"context"
 	"fmt"
+	"sort"
 	"sync"
 	"time"
 
@@ -112,6 +113,8 @@ type World struct {
 	podCtrl       *informer.PodController
 	dsCtrl        *informer.DaemonSetController
 	nodePoolCtrl  *informer.NodePoolController
+	// seen: keys delivered by the previous Sync, per kind (so that deletions are delivered too)
+	seen map[string]map[types.NamespacedName]bool
 }
 
 // tracker assigns deterministic UIDs / names and takes creation and deletion timestamps from the fake clock.
@@ -490,7 +493,10 @@ func (w *World) applyOne(o client.Object) {
 			if err := w.Client.Status().Update(w.Ctx, want); err != nil {
 				panic(fmt.Sprintf("sim.Apply status %s %s: %v", kindOf(o), keyOf(o), err))
 			}
-			o.SetResourceVersion(want.GetResourceVersion())
+			// leave the caller's object as the API server now holds it (Update overwrote its status with the old one)
+			if err := w.Client.Get(w.Ctx, client.ObjectKeyFromObject(want), o); err != nil {
+				o.SetResourceVersion(want.GetResourceVersion())
+			}
 		}
 	})
 }
@@ -542,34 +548,74 @@ func (w *World) Writes() []Call {
 func (w *World) Sync() {
 	w.quiet(func() {
 		ctx := w.Ctx
+		if w.seen == nil {
+			w.seen = map[string]map[types.NamespacedName]bool{}
+		}
+		// keys delivers every current key of the kind plus the keys seen by an earlier Sync that are gone now (the
+		// informer's delete event), in a canonical order
+		keys := func(kind string, cur []types.NamespacedName) []types.NamespacedName {
+			now := map[types.NamespacedName]bool{}
+			for _, k := range cur {
+				now[k] = true
+			}
+			var gone []types.NamespacedName
+			for k := range w.seen[kind] {
+				if !now[k] {
+					gone = append(gone, k)
+				}
+			}
+			sort.Slice(gone, func(i, j int) bool { return gone[i].String() < gone[j].String() })
+			w.seen[kind] = now
+			return append(gone, cur...)
+		}
 		for round := 0; round < 3; round++ {
 			requeue := false
 			var ncs v1.NodeClaimList
 			_ = w.Client.List(ctx, &ncs)
+			var cur []types.NamespacedName
 			for i := range ncs.Items {
-				_, _ = w.nodeClaimCtrl.Reconcile(ctx, reconcile.Request{NamespacedName: client.ObjectKeyFromObject(&ncs.Items[i])})
+				cur = append(cur, client.ObjectKeyFromObject(&ncs.Items[i]))
+			}
+			for _, k := range keys("NodeClaim", cur) {
+				_, _ = w.nodeClaimCtrl.Reconcile(ctx, reconcile.Request{NamespacedName: k})
 			}
 			var nodes corev1.NodeList
 			_ = w.Client.List(ctx, &nodes)
+			cur = nil
 			for i := range nodes.Items {
-				_, _ = w.nodeCtrl.Reconcile(ctx, reconcile.Request{NamespacedName: client.ObjectKeyFromObject(&nodes.Items[i])})
+				cur = append(cur, client.ObjectKeyFromObject(&nodes.Items[i]))
+			}
+			for _, k := range keys("Node", cur) {
+				_, _ = w.nodeCtrl.Reconcile(ctx, reconcile.Request{NamespacedName: k})
 			}
 			var pods corev1.PodList
 			_ = w.Client.List(ctx, &pods)
+			cur = nil
 			for i := range pods.Items {
-				res, _ := w.podCtrl.Reconcile(ctx, reconcile.Request{NamespacedName: client.ObjectKeyFromObject(&pods.Items[i])})
+				cur = append(cur, client.ObjectKeyFromObject(&pods.Items[i]))
+			}
+			for _, k := range keys("Pod", cur) {
+				res, _ := w.podCtrl.Reconcile(ctx, reconcile.Request{NamespacedName: k})
 				//nolint:staticcheck
 				requeue = requeue || res.Requeue
 			}
 			var dss appsv1.DaemonSetList
 			_ = w.Client.List(ctx, &dss)
+			cur = nil
 			for i := range dss.Items {
-				_, _ = w.dsCtrl.Reconcile(ctx, reconcile.Request{NamespacedName: client.ObjectKeyFromObject(&dss.Items[i])})
+				cur = append(cur, client.ObjectKeyFromObject(&dss.Items[i]))
+			}
+			for _, k := range keys("DaemonSet", cur) {
+				_, _ = w.dsCtrl.Reconcile(ctx, reconcile.Request{NamespacedName: k})
 			}
 			var nps v1.NodePoolList
 			_ = w.Client.List(ctx, &nps)
+			cur = nil
 			for i := range nps.Items {
-				_, _ = w.nodePoolCtrl.Reconcile(ctx, reconcile.Request{NamespacedName: client.ObjectKeyFromObject(&nps.Items[i])})
+				cur = append(cur, client.ObjectKeyFromObject(&nps.Items[i]))
+			}
+			for _, k := range keys("NodePool", cur) {
+				_, _ = w.nodePoolCtrl.Reconcile(ctx, reconcile.Request{NamespacedName: k})
 			}
 			if !requeue {
 				break
